@@ -53,7 +53,10 @@ uint64_t g_forced_streak = 0;
 thread_local int tl_id = -1;
 thread_local int tl_nopreempt = 0;
 thread_local uint64_t tl_edges = 0;
-thread_local uint64_t tl_budget = UINT64_MAX;
+// Every thread starts with a generous default edge budget (a legitimate run thread executes at most ~1e9 edges):
+// an endless loop in instrumented code ends the run deterministically instead of spinning until a wall-clock timeout.
+constexpr uint64_t DEFAULT_EDGE_BUDGET = 12000000000ull;
+thread_local uint64_t tl_budget = DEFAULT_EDGE_BUDGET;
 
 inline uint64_t rnd() {
     uint64_t z = (g_rng += 0x9E3779B97F4A7C15ull);
@@ -459,7 +462,7 @@ void set_edge_budget(uint64_t abs_limit) {
 }
 
 void clear_edge_budget() {
-    tl_budget = UINT64_MAX;
+    tl_budget = tl_edges + DEFAULT_EDGE_BUDGET;
 }
 
 }   // namespace sim
